@@ -1,3 +1,4 @@
+import PB.Gen.Managed
 /-
 Model of managed execution in /repo/modules (worker.go, tasks.go, microtasks.go, events.go, error.go,
 modules.go, start.go, stop.go, mgmt.go) and of the request wrapper in /repo/api/router.go, for C06.
@@ -20,7 +21,13 @@ namespace PB.Managed
 inductive PCls where
   | nil      -- `panic(nil)` as written by the caller
   | nilerr   -- *runtime.PanicNilError
-  | err      -- an error value
+  | err      -- an error value that is and wraps none of the sentinels below (also: a typed-nil error pointer,
+             -- a `*ModuleError`, an error whose `Error()` panics)
+  | errCanceled   -- an error `e` with `errors.Is(e, context.Canceled)`: the sentinel itself, `fmt.Errorf("…%w")`,
+                  -- `errors.Join`, a type with an `Is` method
+  | errRestart    -- … `errors.Is(e, ErrRestartNow)`
+  | errDeadline   -- … `errors.Is(e, context.DeadlineExceeded)`
+  | errCleanExit  -- … `errors.Is(e, ErrCleanExit)`
   | str      -- a string
   | rt       -- a runtime.Error (index out of range, nil dereference, division by zero, nil map)
   | strct    -- a struct value
@@ -32,6 +39,21 @@ inductive PCls where
 def recovered : PCls → PCls
   | .nil => .nilerr
   | c => c
+
+/-- The sentinel errors which the code of package modules compares errors with (`errors.Is`): worker.go
+    (`StartWorker`, `runServiceWorker`), tasks.go (`executeWithLocking`), start.go (`ErrCleanExit`);
+    `context.DeadlineExceeded` is compared with nowhere and stands for "any other sentinel". -/
+inductive Sentinel where
+  | canceled | restartNow | deadline | cleanExit
+  deriving DecidableEq, Repr, Inhabited
+
+/-- `errors.Is(v, s)` for a panic value `v` that is an error. -/
+def PCls.wraps : PCls → Sentinel → Bool
+  | .errCanceled, .canceled => true
+  | .errRestart, .restartNow => true
+  | .errDeadline, .deadline => true
+  | .errCleanExit, .cleanExit => true
+  | _, _ => false
 
 /-- Outcome of one run of a managed user function. -/
 inductive Outcome where
@@ -82,6 +104,51 @@ inductive Ret where
   | panicErr (r : Report)
   deriving DecidableEq, Repr, Inhabited
 
+def Ret.isNil : Ret → Bool
+  | .nil => true
+  | _ => false
+
+/-- A `*ModuleError` takes part in `errors.Is` / `errors.As` chains only through methods `Unwrap`, `Is`, `As`;
+    error.go declares none of them (regenerated from the source on every run). With one of them declared the
+    model lets the comparison look through the panic error at the panic value. -/
+def panicErrOpaque : Bool := PB.Gen.Managed.moduleErrorChainMethods.isEmpty
+
+/-- `errors.Is(err, s)` for what `runWorker` returned. -/
+def Ret.is (r : Ret) (s : Sentinel) : Bool :=
+  match r with
+  | .nil => false
+  | .err => false
+  | .canceled => s == .canceled
+  | .restart => s == .restartNow
+  | .panicErr rp => !panicErrOpaque && rp.val.wraps s
+
+/-- What the service-worker loop does after a run. -/
+inductive SvcAct where
+  | finished     -- `return`
+  | restartNow   -- continue with the loop
+  | backoff      -- failCnt++, select { time.After(sleepFor) | m.Ctx.Done() }
+  deriving DecidableEq, Repr, Inhabited
+
+/-- A case condition of the switch in `runServiceWorker`, as written in the source. -/
+def svcCond (c : String) (r : Ret) : Bool :=
+  if c == "err == nil" then r.isNil
+  else if c == "errors.Is(err, context.Canceled)" then r.is .canceled
+  else if c == "errors.Is(err, ErrRestartNow)" then r.is .restartNow
+  else if c == "errors.Is(err, context.DeadlineExceeded)" then r.is .deadline
+  else c == "default"
+
+def svcActOf (a : String) : SvcAct :=
+  if a == "return" then .finished else if a == "loop" then .restartNow else .backoff
+
+/-- A tagless Go `switch`: the first case whose condition holds. -/
+def svcDecideIn : List (String × String) → Ret → SvcAct
+  | [], _ => .restartNow      -- no case applies: the loop goes on
+  | (c, a) :: rest, r => if svcCond c r then svcActOf a else svcDecideIn rest r
+
+/-- The decision of `runServiceWorker` (worker.go:92-116) as a function of the error `runWorker` returned,
+    over the case list regenerated from the source. -/
+def svcDecide (r : Ret) : SvcAct := svcDecideIn PB.Gen.Managed.svcSwitch r
+
 /-- What arrives on the `ctrlFnError` channel of `startCtrlFn`. -/
 inductive CtrlRet where
   | nil
@@ -98,7 +165,8 @@ inductive Kind where
   | runWorker                 -- Module.RunWorker
   | startWorker               -- Module.StartWorker (goroutine around RunWorker)
   | hook                      -- runEventHook → hookingModule.RunWorker
-  | api (afterWrite : Bool)   -- mainHandler.ServeHTTP: RunWorker("http request") around handle + handler
+  | api (afterWrite : Bool) (dev : Bool)  -- mainHandler.ServeHTTP: RunWorker("http request") around handle + handler;
+                              -- `dev`: the option core/devMode when the handler-level recover runs
   | svc                       -- runServiceWorker
   | task                      -- Task.runWithLocking / executeWithLocking
   | mt (blocking : Bool)      -- Run*MicroTask / Start*MicroTask (all three priorities)
@@ -107,7 +175,7 @@ inductive Kind where
   deriving DecidableEq, Repr, Inhabited
 
 def Kind.workerLike : Kind → Bool
-  | .runWorker | .startWorker | .hook | .api _ => true
+  | .runWorker | .startWorker | .hook | .api _ _ => true
   | _ => false
 
 /-- One managed execution. -/
@@ -119,6 +187,7 @@ structure Item where
   ret : Option Ret := none    -- the error returned by the blocking variant
   cret : Option CtrlRet := none -- the result of the routine as startCtrlFn will send it on ctrlFnError
   http : Nat := 0             -- status of the HTTP response (api)
+  detail : Bool := false      -- the response carries the dev-mode page (panic value and stack trace)
   reps : Nat := 0             -- reports made by this item
   pans : Nat := 0             -- panics raised in this item's function
   runs : Nat := 0             -- runs of the user function started so far
@@ -179,11 +248,10 @@ def httpStatus (afterWrite : Bool) : Outcome → Nat
   | .panic _ => if afterWrite then 202 else 500
   | _ => if afterWrite then 202 else 500
 
-/-- Should the service-worker loop run the function again after this outcome? -/
-def Outcome.restarts : Outcome → Bool
-  | .ok => false
-  | .canceled => false
-  | _ => true
+/-- Does the service-worker loop run the function again after this outcome? (The decision the code takes
+    on the error `runWorker` makes of the outcome.) -/
+def Outcome.restarts (o : Outcome) : Bool :=
+  svcDecide (recoverRet .worker o).1 != .finished
 
 /-! ### Programs. `ch` resolves the only nondeterministic choice (back-off timer vs. module context). -/
 
@@ -194,14 +262,21 @@ def workerStep (it : Item) : Option (Item × Eff) :=
   | 1 => some ({ it.take with pc := 2 }, {})                        -- fn(m.Ctx) returns or panics
   | 2 =>                                                            -- deferred recover
     match it.kind with
-    | .api aw =>
-      -- handler-level recover in mainHandler.handle answers 500 and reports "custom";
+    | .api aw dev =>
+      -- handler-level recover in mainHandler.handle (router.go:286-307):
+      --   me := module.NewPanicError("api request", "custom", panicValue); me.Report()
+      --   if devMode() { http.Error(lrw, "Internal Server Error: <value>\n\n<stack>", 500) }
+      --   else { http.Error(lrw, "Internal Server Error.", 500) }
       -- handle returns nil, so runWorker's own recover sees nothing and RunWorker returns nil
       match it.cur with
       | .panic v =>
         if recovered v ≠ .nil then
-          some ({ it with pc := 3, ret := some .nil, http := httpStatus aw it.cur, reps := it.reps + 1 },
-                { rep := some (panicReport .custom v) })
+          if dev then
+            some ({ it with pc := 3, ret := some .nil, http := httpStatus aw it.cur, detail := true, reps := it.reps + 1 },
+                  { rep := some (panicReport .custom v) })
+          else
+            some ({ it with pc := 3, ret := some .nil, http := httpStatus aw it.cur, detail := false, reps := it.reps + 1 },
+                  { rep := some (panicReport .custom v) })
         else some ({ it with pc := 3, ret := some .nil, http := httpStatus aw .ok }, {})
       | o => some ({ it with pc := 3, ret := some .nil, http := httpStatus aw o }, {})
     | _ =>
@@ -218,14 +293,15 @@ def svcStep (env : Env) (it : Item) (ch : Bool) : Option (Item × Eff) :=
   | 0 => some ({ it with pc := 1 }, { dw := 1 })
   | 1 => if env.stopFlag then some ({ it with pc := 5 }, {}) else some ({ it with pc := 2 }, {})  -- m.IsStopping()
   | 2 => some ({ it.take with pc := 3 }, {})                        -- fn(m.Ctx) inside runWorker
-  | 3 =>                                                            -- runWorker's recover, then the switch
+  | 3 =>                                                            -- runWorker's recover, then the switch on `err`
     match recoverRet .worker it.cur with
-    | (r, some rp) =>                                               -- a panic is an error like any other: back off
-      some ({ it with pc := 4, ret := some r, reps := it.reps + 1, failCnt := it.failCnt + 1 }, { rep := some rp })
-    | (.nil, none) => some ({ it with pc := 5, ret := some .nil }, {})
-    | (.canceled, none) => some ({ it with pc := 5, ret := some .canceled }, {})
-    | (.restart, none) => some ({ it with pc := 1, ret := some .restart }, {})
-    | (r, none) => some ({ it with pc := 4, ret := some r, failCnt := it.failCnt + 1 }, {})
+    | (r, rp) =>
+      let n := if rp.isSome then 1 else 0
+      match svcDecide r with
+      | .finished => some ({ it with pc := 5, ret := some r, reps := it.reps + n }, { rep := rp })
+      | .restartNow => some ({ it with pc := 1, ret := some r, reps := it.reps + n }, { rep := rp })
+      | .backoff =>
+        some ({ it with pc := 4, ret := some r, reps := it.reps + n, failCnt := it.failCnt + 1 }, { rep := rp })
   | 4 =>                                                            -- select: time.After(sleepFor) | m.Ctx.Done()
     if ch then (if env.ctxDone then some ({ it with pc := 5 }, {}) else none)
     else some ({ it with pc := 1 }, {})
@@ -306,7 +382,7 @@ def stopStep (env : Env) (it : Item) : Option (Item × Eff) :=
 
 def itemStep (env : Env) (it : Item) (ch : Bool) : Option (Item × Eff) :=
   match it.kind with
-  | .runWorker | .startWorker | .hook | .api _ => workerStep it
+  | .runWorker | .startWorker | .hook | .api _ _ => workerStep it
   | .svc => svcStep env it ch
   | .task => taskStep env it
   | .mt _ => mtStep it
@@ -316,7 +392,7 @@ def itemStep (env : Env) (it : Item) (ch : Bool) : Option (Item × Eff) :=
 /-- pc at which the item has finished (for a task: is idle). -/
 def Item.done (it : Item) : Bool :=
   match it.kind with
-  | .runWorker | .startWorker | .hook | .api _ => it.pc == 5
+  | .runWorker | .startWorker | .hook | .api _ _ => it.pc == 5
   | .svc => it.pc == 7
   | .task => it.pc == 7 || it.pc == 8
   | .mt _ => it.pc == 7
@@ -326,7 +402,7 @@ def Item.done (it : Item) : Bool :=
 /-- pc at which the item is inside its user function (held by the scenario until released). -/
 def Item.inFn (it : Item) : Bool :=
   match it.kind with
-  | .runWorker | .startWorker | .hook | .api _ => it.pc == 1
+  | .runWorker | .startWorker | .hook | .api _ _ => it.pc == 1
   | .svc => it.pc == 2
   | .task => it.pc == 2
   | .mt _ => it.pc == 2
@@ -337,7 +413,7 @@ def Item.inFn (it : Item) : Bool :=
 
 def Item.cw (it : Item) : Int :=
   match it.kind with
-  | .runWorker | .startWorker | .hook | .api _ => if 1 ≤ it.pc ∧ it.pc ≤ 3 then 1 else 0
+  | .runWorker | .startWorker | .hook | .api _ _ => if 1 ≤ it.pc ∧ it.pc ≤ 3 then 1 else 0
   | .svc => if 1 ≤ it.pc ∧ it.pc ≤ 5 then 1 else 0
   | _ => 0
 
@@ -366,7 +442,7 @@ def Item.cc (it : Item) : Int :=
 /-- 1 while a `checkIfStopComplete` of this item is still to come. -/
 def Item.pendingCheck (it : Item) : Int :=
   match it.kind with
-  | .runWorker | .startWorker | .hook | .api _ => if it.pc ≤ 4 then 1 else 0
+  | .runWorker | .startWorker | .hook | .api _ _ => if it.pc ≤ 4 then 1 else 0
   | .svc => if it.pc ≤ 6 then 1 else 0
   | .task => if 1 ≤ it.pc ∧ it.pc ≤ 5 then 1 else 0
   | .mt _ => if it.pc ≤ 5 then 1 else 0
@@ -377,7 +453,7 @@ def Item.pendingCheck (it : Item) : Int :=
 def Item.pendingReport (it : Item) : Nat :=
   if it.cur.isPanic then
     match it.kind with
-    | .runWorker | .startWorker | .hook | .api _ => if it.pc = 2 then 1 else 0
+    | .runWorker | .startWorker | .hook | .api _ _ => if it.pc = 2 then 1 else 0
     | .svc => if it.pc = 3 then 1 else 0
     | .task => if it.pc = 3 then 1 else 0
     | .mt _ => if it.pc = 3 then 1 else 0
@@ -404,17 +480,34 @@ structure St where
   stopFlag : Bool := false
   ctxDone : Bool := false  -- m.Ctx cancelled
   stopCompleted : Bool := true   -- abool.NewBool(true) in initNewModule
+  chanSet : Bool := true   -- errorReportingChannel != nil (SetErrorReportingChannel was called)
+  cap : Nat := 0           -- capacity of errorReportingChannel
   feed : List Report := [] -- what was delivered to errorReportingChannel, in order
-  cap : Nat := 0           -- room in errorReportingChannel (the send is non-blocking)
-  dropped : Nat := 0       -- reports that found the channel full
+  taken : Nat := 0         -- how many of them the consumer has received (the others sit in the buffer)
+  waiting : Nat := 0       -- consumers parked in a receive on the (empty) channel
+  dropped : Nat := 0       -- reports that could not be delivered (no channel; buffer full and nobody receiving)
   last : Option Report := none -- lastReportedError
   items : List Item := []
   deriving Repr, Inhabited
 
-/-- `ModuleError.Report()` (error.go:98-119): remember as last, non-blocking send. -/
+/-- A send on the reporting channel can proceed at once: a consumer is parked in a receive, or the buffer has room. -/
+def St.canSend (s : St) : Bool := s.chanSet && (0 < s.waiting || s.feed.length < s.taken + s.cap)
+
+/-- `ModuleError.Report()` (error.go:98-119), under `reportingLock`: remember as last; if a channel is set,
+    `select { case errorReportingChannel <- me: default: }`. -/
 def St.report (s : St) (r : Report) : St :=
-  if s.feed.length < s.cap then { s with last := some r, feed := s.feed ++ [r] }
+  if !s.chanSet then { s with last := some r, dropped := s.dropped + 1 }
+  else if 0 < s.waiting then
+    { s with last := some r, feed := s.feed ++ [r], taken := s.taken + 1, waiting := s.waiting - 1 }
+  else if s.feed.length < s.taken + s.cap then { s with last := some r, feed := s.feed ++ [r] }
   else { s with last := some r, dropped := s.dropped + 1 }
+
+/-- Is the send in `Report()` a plain `ch <- me`? (Regenerated from the source: it is the non-blocking select.) -/
+def reportSendBlocking : Bool := PB.Gen.Managed.reportSend != "select-default"
+
+/-- `Report()` would block the reporting goroutine (inside the deferred recover block, before the counters
+    are decremented): only a blocking send, on a set channel that cannot take the report now. -/
+def St.reportBlocks (s : St) : Bool := reportSendBlocking && s.chanSet && !s.canSend
 
 /-- `checkIfStopComplete` (modules.go:263-300): evaluated and signalled under the module lock, hence one atomic step. -/
 def St.check (s : St) : St :=
@@ -442,6 +535,7 @@ def St.apply (s : St) (i : Nat) (it' : Item) (e : Eff) : St :=
 
 inductive Act where
   | item (i : Nat) (ch : Bool)    -- item i takes its next atomic step
+  | recv                          -- the consumer of the error channel receives (or parks in the receive)
   | spawn (it : Item)             -- a new managed execution arrives
   | queue (i : Nat) (outs : List Outcome)  -- an idle task is queued again (Task.Queue & co.)
   deriving Repr
@@ -457,7 +551,11 @@ def step (s : St) : Act → Option St
     | some it =>
       match itemStep s.env it ch with
       | none => none
-      | some (it', e) => some (s.apply i it' e)
+      | some (it', e) => if e.rep.isSome && s.reportBlocks then none else some (s.apply i it' e)
+  | .recv =>
+    if !s.chanSet then none
+    else if s.taken < s.feed.length then some { s with taken := s.taken + 1 }
+    else some { s with waiting := s.waiting + 1 }
   | .spawn it => if it.fresh then some { s with items := s.items ++ [it] } else none
   | .queue i outs =>
     match s.items[i]? with
